@@ -27,8 +27,16 @@ type C05Case struct {
 	EvKind string     `json:"ev_kind,omitempty"` // NMI | INT
 }
 
+// C05Acc is one acceptance case of a sweep: the request is in the slot when the Step begins, and the
+// host - which keeps the request value - presents the same value again for a second acceptance.
+type C05Acc struct {
+	Regs world.Regs  `json:"regs"`
+	Ev   world.Event `json:"ev"`
+}
+
 // C05Sc is a C05 scenario.
 type C05Sc struct {
+	Acc     []C05Acc  `json:"acc,omitempty"`
 	Family  string    `json:"family"` // sweep | program
 	MemSeed uint64    `json:"mem_seed"`
 	IOSeed  uint64    `json:"io_seed"`
@@ -178,6 +186,34 @@ func (c05) Gen(r *world.Rng, tier string, n int) interface{} {
 			c.EvKind = []string{"NMI", "INT"}[r.Intn(2)]
 		}
 		sc.Cases = append(sc.Cases, c)
+	}
+	// acceptance Steps from corner pre-states: the stack slot next to, on, or around the interrupted PC,
+	// at the 0xFFFF wrap, anywhere
+	for i := 0; i < 3; i++ {
+		regs := world.RandRegs(r)
+		regs.IFF1 = true
+		if r.Chance(1, 3) {
+			regs.PC = r.CornerU16()
+		}
+		switch r.Intn(8) {
+		case 0, 1, 2:
+			regs.SP = regs.PC + uint16(r.Range(0, 6)) - 1
+		case 3:
+			regs.SP = r.CornerU16()
+		}
+		ev := world.Event{Kind: world.EvINT}
+		switch {
+		case r.Chance(1, 5):
+			ev.Kind = world.EvNMI
+		case regs.IM == 0:
+			nn := r.U16()
+			d := [][]uint8{{0xc7 | uint8(r.Intn(8))<<3}, {0xcd, uint8(nn), uint8(nn >> 8)}, {0xcd, uint8(nn), uint8(nn >> 8)}, {0xc7 | uint8(r.Intn(8))<<3, r.Byte()},
+				{0x32, uint8(nn), uint8(nn >> 8)}, {0x22, uint8(nn), uint8(nn >> 8)}, {0x34}, {0xe5}, {0xc3, uint8(nn), uint8(nn >> 8)}}[r.Intn(9)]
+			ev.Data = hex.EncodeToString(d)
+		case regs.IM == 2:
+			ev.Data = hex.EncodeToString([]uint8{r.Byte() &^ 1})
+		}
+		sc.Acc = append(sc.Acc, C05Acc{Regs: regs, Ev: ev})
 	}
 	return sc
 }
@@ -516,7 +552,7 @@ func (c05) Exec(sci interface{}, env *Env) *Violation {
 			at := c.EvAt
 			m.Hook = func(mm *world.Machine, _ world.Acc) {
 				if len(mm.Bus.Log) == at {
-					mm.CPU.Interrupt = req
+					mm.Post(req)
 				}
 			}
 		}
@@ -555,6 +591,49 @@ func (c05) Exec(sci interface{}, env *Env) *Violation {
 		env.Fire("encoding-checked")
 		env.NTPoints++
 	}
+	for i, c := range sc.Acc {
+		m.Hook = nil
+		m.CPU.States = c.Regs.States()
+		m.CPU.HALT = false
+		req := c.Ev.Request() // the host keeps this value
+		for pass := 0; pass < 2; pass++ {
+			before := m.CPU.States
+			copyReq := world.CloneRequest(req)
+			d := req.Data
+			rstCall := len(d) > 0 && (d[0]&0xc7 == 0xc7 || d[0] == 0xcd)
+			var expAcc *model.BusExp
+			if req.Type != z80.NMIType && before.IM == 0 && !rstCall {
+				expAcc = expectAcceptIM0(before, d, peek)
+				if expAcc == nil {
+					break // (statement-silent: data accesses on the overlaid bytes, pushing forms other than RST/CALL)
+				}
+			}
+			m.CPU.Interrupt = req
+			si := m.StepNoBoundary()
+			env.Steps++
+			what := fmt.Sprintf("acceptance case %d, presentation %d of the same request value %s, regs{%s}", i, pass+1, world.FmtRequest(copyReq), world.FmtStates(before))
+			if !si.Accepted {
+				return &Violation{Oracle: "acceptance-expected", Detail: what + ": not consumed although acceptable", Hint: -(i + 1)}
+			}
+			var v *Violation
+			if expAcc != nil {
+				v = checkStepBus(*expAcc, before, m.CPU, m.Bus.Log)
+			} else {
+				v = checkAcceptBus(before, copyReq, m.Bus.Log)
+			}
+			if v != nil {
+				v.Detail = what + ": " + v.Detail
+				v.Hint = -(i + 1)
+				return v
+			}
+			if !world.SameRequest(req, copyReq) {
+				return &Violation{Oracle: "request-value-modified", Detail: what + ": the value the host keeps is " + world.FmtRequest(req) + " after the Step: the library wrote into it, the device's next acknowledge would not carry the bytes it means to", Hint: -(i + 1)}
+			}
+			env.Fire("acceptance-case-checked")
+			// second presentation: from wherever the first one led, interrupts enabled again
+			m.CPU.IFF1 = true
+		}
+	}
 	env.Ticks += m.Bus.Tick
 	env.NonTrivial = true
 	return nil
@@ -578,7 +657,7 @@ func c05Program(sc *C05Sc, env *Env) *Violation {
 		m.Hook = func(mm *world.Machine, a world.Acc) {
 			if a.Kind == world.MW && a.Addr-sc.Watch < 0x40 && left > 0 {
 				left--
-				mm.CPU.Interrupt = z80.NMIInterrupt()
+				mm.Post(z80.NMIInterrupt())
 				env.Fire("write-watch-device-posts-NMI")
 			}
 		}
@@ -610,6 +689,10 @@ func c05Program(sc *C05Sc, env *Env) *Violation {
 		si := m.StepNoBoundary()
 		env.Steps++
 		what := fmt.Sprintf("step %d regs{%s}", step, world.FmtStates(before))
+		if m.Mutated != "" {
+			// (the bytes a device puts on the bus the next time are no longer the ones it meant to)
+			return viol("request-value-modified", "%s: %s", what, m.Mutated)
+		}
 		if si.Accepted {
 			var v *Violation
 			if d := req.Data; req.Type != z80.NMIType && before.IM == 0 && len(d) > 0 && !(len(d) == 1 && d[0]&0xc7 == 0xc7) && d[0] != 0xcd {
@@ -659,6 +742,9 @@ func c05Program(sc *C05Sc, env *Env) *Violation {
 		return viol("notifications", "the program executed %d RETI and %d RETN (bus history); the handlers were notified %d and %d times", wantRETI, wantRETN, m.Cnt.RETI, m.Cnt.RETN)
 	}
 	env.Ticks += m.Bus.Tick
+	for k, v := range m.Raised {
+		env.FireN("raised/"+k, uint64(v))
+	}
 	env.FireN("interrupts-accepted-in-program", uint64(m.Accepted))
 	env.NTPoints++
 	return nil
@@ -669,7 +755,12 @@ func (c05) Shrink(sci interface{}, v *Violation) []interface{} {
 	sc := sci.(*C05Sc)
 	var out []interface{}
 	if sc.Family == "sweep" {
-		if i, ok := v.Hint.(int); ok && len(sc.Cases) > 1 && i < len(sc.Cases) {
+		if i, ok := v.Hint.(int); ok && i < 0 && (len(sc.Acc) > 1 || len(sc.Cases) > 0) {
+			n := Clone(p, sc).(*C05Sc)
+			n.Cases, n.Acc = nil, []C05Acc{sc.Acc[-i-1]}
+			return []interface{}{n}
+		}
+		if i, ok := v.Hint.(int); ok && i >= 0 && len(sc.Cases) > 1 && i < len(sc.Cases) {
 			n := Clone(p, sc).(*C05Sc)
 			n.Cases = []C05Case{sc.Cases[i]}
 			out = append(out, n)
